@@ -19,6 +19,9 @@ Inductive qstmt :=
 | SDef (name : string) (pre post : list string).     (* routine: gates applied to its qubit before / after its single measurement *)
 
 Definition tok_is (t : tok) (s : string) : bool := match t with TSym x => String.eqb x s | TId x => String.eqb x s | _ => false end.
+(* the register the program declares *)
+Definition declared_width (stmts : list qstmt) : option N :=
+  match find (fun s => match s with SQubitDecl _ => true | _ => false end) stmts with Some (SQubitDecl k) => Some k | _ => None end.
 
 (* operand: q [ int ] *)
 Definition p_operand (ts : list tok) : option (N * list tok) :=
